@@ -305,6 +305,55 @@ def register(R, tier="quick"):
                note="buffering a posting appends id and weight in step and keeps the block maximum weight an upper bound of "
                     "every buffered weight (what block_quality is computed from), min/max length over postings with a length")
 
+    # ------------------------------------------------------------------ a full block is written out BEFORE the new posting is buffered
+    def nb_effect(I, env):
+        """what _new_block() leaves (verified below) - used as the effect of _write_block(), which ends with it"""
+        f = env["self"].fields
+        f["_ids"] = SymList(z3.K(IntS, z3.IntVal(0)), z3.IntVal(0), "array")
+        f["_weights"] = SymList(z3.K(IntS, z3.RealVal(0)), z3.IntVal(0), "array")
+        f["_values"] = ValueList(I)
+        f["_minlength"] = None
+        f["_maxlength"] = z3.IntVal(0)
+        f["_maxweight"] = z3.RealVal(0)
+
+    def ln(v):
+        return v.n if isinstance(v, SymList) else z3.IntVal(len(v.items))
+
+    def at0(I, v):
+        return z3.Select(v.arr, 0) if isinstance(v, SymList) else to_z3(v.items[0])
+
+    def nb_post(I, env):
+        f = env["self"].fields
+        return z3.And(ln(f["_ids"]) == 0, ln(f["_weights"]) == 0, o_none(f["_minlength"]),
+                      to_z3(f["_maxlength"]) == 0, to_z3(f["_maxweight"]) == 0)
+
+    R.contract(W3 + ":W3PostingsWriter._new_block", props=["C12", "C05", "C10"], setup=lambda I: {"self": mk_pw(I)},
+               ensures=[nb_post], modifies=["self._ids", "self._weights", "self._values", "self._minlength", "self._maxlength", "self._maxweight"],
+               canaries=[Canary("max-weight-kept", "self._maxweight = 0", "pass")],
+               note="a new block starts empty: no ids, no weights, statistics reset (max weight 0, no lengths)")
+    R.contract(W3 + ":W3PostingsWriter._write_block", label="postings/_write_block@add_posting", props=["C12", "C05", "C10"], verify=False,
+               effect=nb_effect,
+               note="(call-site stub: serialises the buffered block - bounded formats harness - and ends with _new_block(), whose "
+                    "effect is the verified postcondition above)")
+
+    def addp_full_post(I, env):
+        s = env["self"].fields
+        w, ids = s["_weights"], s["_ids"]
+        return z3.And(ln(ids) == 1, ln(w) == 1, at0(I, ids) == env["id_"], at0(I, w) == env["weight"],
+                      to_z3(s["_maxweight"]) >= env["weight"], to_z3(s["_maxweight"]) >= 0,
+                      to_z3(s["_maxweight"]) == z3.If(env["weight"] > 0, env["weight"], 0))
+
+    R.contract(W3 + ":W3PostingsWriter.add_posting", label=W3 + ":W3PostingsWriter.add_posting#full-block", props=["C12", "C05", "C10"],
+               setup=lambda I: addp_setup(I, False),
+               requires=[stats_ok, "len(self._ids) >= self._blocklimit", "self._blocklimit >= 1", "id_ >= 0"],
+               ensures=[addp_full_post],
+               modifies=["self._ids", "self._weights", "self._values", "self._minlength", "self._maxlength", "self._maxweight"],
+               canaries=[Canary("statistics-before-the-flush", "if len(self._ids) >= self._blocklimit:\n        self._write_block()", "pass"),
+                         ],
+               note="when the buffer is full the old block is written out first: the posting that opens the new block is the "
+                    "only one buffered afterwards and the block maximum weight is ITS weight (not a leftover of the old block, "
+                    "and not lost to it)")
+
     # ------------------------------------------------------------------ combine_terminfos: statistics over several segments
     def ct_setup(I, k):
         tis = []
